@@ -144,8 +144,8 @@ func ve2eExpr[T ve2eInt](a, b, c T) {
 	vreach("end")
 }
 
-func vh_c01_e2e_expr_int32_q() { ve2eExpr(vsym_i32(), vsym_i32(), vsym_i32()) }
-func vh_c01_e2e_expr_uint8_q() { ve2eExpr(vsym_u8(), vsym_u8(), vsym_u8()) }
-func vh_c01_e2e_expr_int64_q() { ve2eExpr(vsym_i64(), vsym_i64(), vsym_i64()) }
-func vh_c01_e2e_expr_int_q()   { ve2eExpr(int(vsym_i64()), int(vsym_i64()), int(vsym_i64())) }
+func vh_c01_e2e_expr_int32_q()  { ve2eExpr(vsym_i32(), vsym_i32(), vsym_i32()) }
+func vh_c01_e2e_expr_uint8_q()  { ve2eExpr(vsym_u8(), vsym_u8(), vsym_u8()) }
+func vh_c01_e2e_expr_int64_q()  { ve2eExpr(vsym_i64(), vsym_i64(), vsym_i64()) }
+func vh_c01_e2e_expr_int_q()    { ve2eExpr(int(vsym_i64()), int(vsym_i64()), int(vsym_i64())) }
 func vh_c01_e2e_expr_uint16_q() { ve2eExpr(vsym_u16(), vsym_u16(), vsym_u16()) }
